@@ -11,6 +11,9 @@ import (
 	"path/filepath"
 	"sort"
 	"strings"
+	"time"
+
+	"github.com/notaryproject/notation-core-go/signature"
 )
 
 func mkdirAll(p string) error { return os.MkdirAll(p, 0755) }
@@ -100,4 +103,11 @@ func diffSnap(a, b map[string]snapEntry) string {
 		d = append(d[:6], fmt.Sprintf("... %d more", len(d)-6))
 	}
 	return strings.Join(d, "; ")
+}
+
+func timeNow() time.Time { return time.Now() }
+
+func pluginAttrs() []signature.Attribute {
+	return []signature.Attribute{{Key: "io.cncf.notary.verificationPlugin", Critical: true, Value: c02Plugin},
+		{Key: "io.cncf.notary.verificationPluginMinVersion", Critical: true, Value: "1.0.0"}}
 }
